@@ -11,22 +11,23 @@ import (
 
 // Profile selects which parts of the API a random history exercises.
 type Profile struct {
-	Name     string
-	Len      int
-	Locs     []string
-	Ids      []string
-	Expiry   bool
-	Parents  bool
-	Keys     bool
-	Rules    bool
-	Reload   bool
-	Cascade  bool
-	HostileQ bool // ids and strings starting with "?"
+	Name        string
+	Len         int
+	Locs        []string
+	Ids         []string
+	Expiry      bool
+	Parents     bool
+	Keys        bool
+	Rules       bool
+	Reload      bool
+	Cascade     bool
+	HostileQ    bool // ids and strings starting with "?"
 	Index       bool // rule patterns that share index prefixes; events instantiated from stored patterns
+	SideEffects bool // some rule actions report their bindings, throw, or write a fact (Env.AddFact)
 	Dispatch    bool // rules with conditions and reporting / failing actions
 	MixedEvents bool // events may hold arrays of mixed scalar types (known finding D_UNSORTABLE_EVENT)
-	MaxFacts int
-	Weights  map[string]int
+	MaxFacts    int
+	Weights     map[string]int
 }
 
 type Gen struct {
@@ -36,10 +37,11 @@ type Gen struct {
 	// (what the indexed state's rule index can take in an event).
 	Homogeneous bool
 	// T receives the action / condition scripts the generator invents.
-	T     *enc.Tables
-	nact  int
-	nvar  int
-	known []map[string]interface{} // when patterns of recently added rules
+	T      *enc.Tables
+	nact   int
+	nvar   int
+	inRule bool
+	known  []map[string]interface{} // when patterns of recently added rules
 }
 
 var homogeneous = [][]interface{}{{"x", "y", "tacos"}, {1.0, 2.0, 0.5}, {true, false}}
@@ -87,7 +89,11 @@ func (g *Gen) Fact() map[string]interface{} {
 		dw := []interface{}{}
 		perm := g.R.Perm(len(g.P.Ids))
 		for i, k := 0, 1+g.R.Intn(2); i < k && i < len(perm); i++ {
-			dw = append(dw, g.P.Ids[perm[i]]) // distinct elements: arrays are sets
+			t := g.P.Ids[perm[i]] // distinct elements: arrays are sets
+			if g.R.Intn(5) == 0 {
+				t = "!" + t + ".disabled" // a property fact as the target
+			}
+			dw = append(dw, t)
 		}
 		m["deleteWith"] = dw
 	}
@@ -180,6 +186,15 @@ func (g *Gen) Pattern() map[string]interface{} {
 		vars = []string{"?x"} // force repeated variables
 	}
 	var p map[string]interface{}
+	if !g.inRule && g.R.Intn(12) == 0 {
+		// a variable as the (only) property name (fact searches only: an undocumented,
+		// "experimental" pattern form that the rule index does not handle reliably)
+		var v interface{} = g.scalar()
+		if g.R.Intn(2) == 0 {
+			v = "?v"
+		}
+		return map[string]interface{}{"?k": v}
+	}
 	if g.R.Intn(5) == 0 {
 		p = map[string]interface{}{}
 		for i, k := 0, g.R.Intn(3); i < k; i++ {
@@ -249,7 +264,13 @@ func (g *Gen) condition() map[string]interface{} {
 func (g *Gen) action() map[string]interface{} {
 	g.nact++
 	tag := fmt.Sprintf("t%d.%d", g.R.Intn(1000000), g.nact)
-	switch g.R.Intn(6) {
+	switch g.R.Intn(7) {
+	case 6:
+		// writes a fact into the event's location, with the caller's keys
+		id := "made-" + tag
+		code := fmt.Sprintf("Env.AddFact('%s', {made:'%s'})", id, id)
+		g.T.NoteAct(code, "addfact", id)
+		return map[string]interface{}{"code": code}
 	case 0:
 		code := fmt.Sprintf("throw 'boom %s'", tag)
 		g.T.NoteAct(code, "throw", tag)
@@ -363,7 +384,11 @@ func (g *Gen) instantiate(p interface{}, bound map[string]interface{}) interface
 	case map[string]interface{}:
 		m := map[string]interface{}{}
 		for _, k := range sortedKeys(v) {
-			m[k] = g.instantiate(v[k], bound)
+			key := k
+			if len(k) > 0 && k[0] == '?' {
+				key = topKeys[g.R.Intn(len(topKeys))] // a variable property name: any concrete one
+			}
+			m[key] = g.instantiate(v[k], bound)
 		}
 		if g.R.Intn(3) == 0 {
 			m[[]string{"n", "p", "q"}[g.R.Intn(3)]] = ixScalars[g.R.Intn(len(ixScalars))]
@@ -429,6 +454,25 @@ func homogeneousArrays(x interface{}) bool {
 	return true
 }
 
+func (g *Gen) remember(p map[string]interface{}) {
+	g.known = append(g.known, p)
+	if len(g.known) > 6 {
+		g.known = g.known[1:]
+	}
+}
+
+// hitEvent: an event made to match a recently added rule (nil when there is none or it cannot be used).
+func (g *Gen) hitEvent() map[string]interface{} {
+	if len(g.known) == 0 {
+		return nil
+	}
+	ev, ok := g.instantiate(g.known[g.R.Intn(len(g.known))], map[string]interface{}{}).(map[string]interface{})
+	if !ok || (!g.P.MixedEvents && !homogeneousArrays(ev)) {
+		return nil
+	}
+	return ev
+}
+
 func (g *Gen) ixEvent() map[string]interface{} {
 	var ev map[string]interface{}
 	if len(g.known) > 0 && g.R.Intn(5) > 0 {
@@ -451,11 +495,15 @@ func (g *Gen) Rule() map[string]interface{} {
 	}
 	if g.P.Index {
 		p := g.ixPattern()
-		g.known = append(g.known, p)
-		if len(g.known) > 6 {
-			g.known = g.known[1:]
-		}
+		g.remember(p)
 		r := map[string]interface{}{"when": map[string]interface{}{"pattern": p}}
+		if g.P.Expiry && g.R.Intn(2) == 0 {
+			g.addExpiry(r)
+			if _, str := r["expires"].(string); str {
+				delete(r, "expires") // rules take numeric expires only
+				r["ttl"] = "2s"
+			}
+		}
 		if g.R.Intn(2) == 0 {
 			r["action"] = map[string]interface{}{"code": []string{"1", "2", "3"}[g.R.Intn(3)]}
 		} else {
@@ -463,13 +511,20 @@ func (g *Gen) Rule() map[string]interface{} {
 		}
 		return r
 	}
+	g.inRule = true
 	r := map[string]interface{}{
 		"when": map[string]interface{}{"pattern": g.Pattern()},
 	}
+	g.inRule = false
 	if g.R.Intn(2) == 0 {
 		r["action"] = map[string]interface{}{"code": "1"}
 	} else {
 		r["actions"] = []interface{}{map[string]interface{}{"code": "2"}}
+	}
+	g.remember(r["when"].(map[string]interface{})["pattern"].(map[string]interface{}))
+	if g.P.SideEffects && g.R.Intn(2) == 0 {
+		delete(r, "actions")
+		r["action"] = g.action()
 	}
 	if g.P.Cascade && g.R.Intn(4) == 0 {
 		r["deleteWith"] = []interface{}{g.pick(g.P.Ids)}
@@ -553,6 +608,11 @@ func (g *Gen) Next() Op {
 		g.Homogeneous = !g.P.MixedEvents
 		op.Val = g.Fact()
 		g.Homogeneous = false
+		if !g.P.Dispatch && !g.P.Index && g.R.Intn(2) == 0 {
+			if ev := g.hitEvent(); ev != nil {
+				op.Val = ev
+			}
+		}
 		if g.P.Dispatch {
 			op.Val = g.dispatchEvent()
 		}
